@@ -64,6 +64,35 @@ def _decide(cond, node, file, fn):
     return False if r is None else r
 
 
+def _special_value(cond):
+    """(parameter name, constant) if the branch condition is `param == constant` (or its negation) for a scalar symbol"""
+    for q in (cond, 1 - cond):
+        if len(q.t) != 1:
+            continue
+        ((m, c),) = q.t.items()
+        if c == alg.ONE and len(m) == 1 and m[0][0][0] == "ind" and m[0][0][1] == "eq":
+            d = m[0][0][2] - m[0][0][3]
+            syms = [a for a in d.atoms() if a[0] == "s"]
+            if len(syms) != 1 or len(d.all_atoms()) != 1:
+                return None
+            a = syms[0]
+            lin = d.t.get(((a, 1),))
+            const = d.t.get((), alg.GQ(0))
+            if lin is None or len(d.t) > 2 or lin.im != 0 or const.im != 0:
+                return None
+            v = -const.re / lin.re
+            return (a[1], int(v) if v.denominator == 1 else v)
+    return None
+
+
+def _subs(x, sub):
+    if x is None:
+        return None
+    if isinstance(x, Tens):
+        return x.map(lambda e: alg.subs(e, sub))
+    return alg.subs(as_poly(x), sub)
+
+
 def _p(x):
     if isinstance(x, Tens):
         return x.data[0] if x.shape == () else x
@@ -73,6 +102,7 @@ def _p(x):
 def run(tier="quick", only_key=None):
     ck = Check(PROP, LEVEL, tier, only_key)
     ck.rule("trace-safety", "no Python-level control flow, coercion, isinstance(float) dispatch, container equality or attribute mutation on a value that is a tracer under jit / vmap / scan / filter_vmap, on every path reachable from the public stepper API")
+    ck.rule("special-value", "a constructor branch taken only for one concrete value of a float parameter (`if isinstance(x, (int, float)) and x == c:`) must build the stepper the general branch builds at x = c: under jit / filter_vmap the parameter is a tracer, the general branch runs, and the results have to coincide")
     ck.rule("entry-covered", "the entry point was interpreted to completion in this scenario (no finding on its path)")
     entries = 0
     reached = set()
@@ -120,7 +150,36 @@ def run(tier="quick", only_key=None):
                     def thunk():
                         traced = catalog.stepper_forms(it, cls, D, 0, _traced=True, **fl)
                         evs = list(it.ctx.events)
-                        eager = catalog.stepper_forms(it, cls, D, 0, **fl)
+                        special = []
+                        base_decide = it.ctx.decide
+
+                        def rec(cond, node, file, fn):
+                            sv = _special_value(cond)
+                            if sv is not None:
+                                special.append(sv + (file, getattr(node, "lineno", None)))
+                            return base_decide(cond, node, file, fn)
+
+                        it.ctx.decide = rec
+                        try:
+                            eager = catalog.stepper_forms(it, cls, D, 0, **fl)
+                        finally:
+                            it.ctx.decide = base_decide
+                        pos_, kwp, _, _ = catalog.init_params(cls)
+                        for pname, cval, sfile, sline in sorted(set(special), key=repr):
+                            if pname not in kwp:
+                                continue
+                            spec = catalog.stepper_forms(it, cls, D, 0, **dict(fl, **{pname: cval}))
+                            sub = {("s", pname): Poly.const(cval)}
+                            gen_at = (eager["C"], _subs(eager["L"], sub), None if eager["N"] is None else [alg.subs(e, sub) for e in eager["N"].data], eager["integrator"])
+                            got = (spec["C"], spec["L"], None if spec["N"] is None else list(spec["N"].data), spec["integrator"])
+                            from vf.harness import _same
+
+                            d2 = [n_ for n_, x, y in zip(("num_channels", "linear symbol", "nonlinear term", "integrator"), got, gen_at) if not ((x is None and y is None) or _same(x, y))]
+                            skey = f"{cls.qual}#special-value#{pname}={cval},D={D},{fl}"
+                            if d2:
+                                ck.fail("special-value", skey, f"{sfile}:{sline}", f"{pub}({pname}={cval}) takes a Python-level special-case branch that builds a different stepper ({', '.join(d2)} differ) than the general branch evaluated at {pname} = {cval}: the eager result and the result under jit / filter_vmap (traced {pname}) disagree")
+                            else:
+                                ck.ok("special-value", skey)
                         it.ctx.events[:] = evs  # only the traced run's events count
                         a = (traced["C"], _p(traced["dt"]), traced["L"], None if traced["N"] is None else list(traced["N"].data), traced["integrator"])
                         b = (eager["C"], _p(eager["dt"]), eager["L"], None if eager["N"] is None else list(eager["N"].data), eager["integrator"])
